@@ -85,6 +85,7 @@ fn main() {
         "C13" => dispatch(&engines::snapsync::SyncEngine, &mode),
         "C15" => dispatch(&engines::demo::DemoEngine, &mode),
         "C17" => dispatch(&engines::teehist::ThEngine, &mode),
+        "C18" => dispatch(&engines::sbrowse::SbEngine, &mode),
         "C20" => dispatch(&engines::multi::MultiEngine, &mode),
         _ => {
             eprintln!("unknown property {}", prop);
